@@ -67,6 +67,14 @@ def _run_once(scenario, args=None, plan=None, timeout=90, env_extra=None,
     if env_extra:
         env.update(env_extra)
     t0 = time.time()
+    # names that exist in the system-wide semaphore namespace before this run (other jobs,
+    # earlier crashes): process ids are recycled, a stale "loky-<pid>-*" name of a dead
+    # process may carry the pid this run is about to get
+    try:
+        with open(os.path.join(tmp, "pre_shm.txt"), "w") as f:
+            f.write("\n".join(os.listdir("/dev/shm")))
+    except OSError:
+        pass
     log = open(os.path.join(tmp, "stdio.log"), "wb")
     p = subprocess.Popen([sys.executable, "-m", module, scenario, json.dumps(args or {}), out],
                          stdin=subprocess.DEVNULL, stdout=log, stderr=subprocess.STDOUT,
